@@ -80,6 +80,15 @@ class C14Machine(RuleBasedStateMachine):
             name = '@REAL@/' + (rel + '/' if rel else '') + name
         self.ex.path_op(op, dfd, name, bufsize=bufsize, unstable=unstable)
 
+    @rule(op=st.sampled_from(['unlink_file', 'remove_directory', 'create_directory']),
+          name=st.sampled_from(['/proc/version', '/proc/sys/kernel/ostype', '/proc/sys', '/proc/self/status', '/proc/no-such-entry/x']),
+          di=st.integers(0, 5))
+    def host_refusals(self, op, name, di):
+        # absolute guest paths into procfs: the host refuses these operations with error codes a freshly generated tree never
+        # produces for root (EPERM, EACCES, EROFS-like answers); both sides make the same call on the same (unchangeable) object
+        self.ex.flags.add('host_refusal_errno')
+        self.ex.path_op(op, self.pick_dir(di), name)
+
     @rule(op=st.sampled_from(['rename', 'symlink']), name=st.sampled_from(NAMES), name2=st.sampled_from(NAMES),
           di=st.integers(0, 5), di2=st.integers(0, 5))
     def op2(self, op, name, name2, di, di2):
